@@ -15,12 +15,17 @@ EXTENDS Integers, Sequences, FiniteSets, TLC
 Rng(s) == {s[i] : i \in DOMAIN s}
 Count(s, x) == Cardinality({i \in DOMAIN s : s[i] = x})
 BagEq(s, t) == Len(s) = Len(t) /\ \A x \in Rng(s) \cup Rng(t) : Count(s, x) = Count(t, x)
-\* descriptors: term [co, c]; list [terms]; contract [inv, outv, a, g]; compound [inv, outv]
+\* descriptors: term [co, c]; list [terms]; contract [inv, outv, a, g];
+\* compound [inv, outv, a, g] with a, g lists of closed intervals <<lo, hi>> (integer end points in -60..60) of ONE variable:
+\* nested lists are compared by meaning, so two of them are "equal" when their unions contain the same points --
+\* decided exactly on the half-integer grid
+InIvs(ivs, p2) == \E k \in DOMAIN ivs : 2 * ivs[k][1] <= p2 /\ p2 <= 2 * ivs[k][2]
+UnionEq(s, t) == \A p2 \in -130..130 : InIvs(s, p2) <=> InIvs(t, p2)
 FieldsEqual(kind, x, y) ==
   CASE kind = "term" -> x.co = y.co /\ x.c = y.c
     [] kind = "list" -> BagEq(x.terms, y.terms)
     [] kind = "contract" -> Rng(x.inv) = Rng(y.inv) /\ Rng(x.outv) = Rng(y.outv) /\ BagEq(x.a, y.a) /\ BagEq(x.g, y.g)
-    [] kind = "compound" -> Rng(x.inv) = Rng(y.inv) /\ Rng(x.outv) = Rng(y.outv)
+    [] kind = "compound" -> Rng(x.inv) = Rng(y.inv) /\ Rng(x.outv) = Rng(y.outv) /\ UnionEq(x.a, y.a) /\ UnionEq(x.g, y.g)
 \* e: [kind, objs, eq (matrix of "true"/"false"/exception class), hash, copies (pairs)]
 N(e) == Len(e.objs)
 EqJudge(e) ==
